@@ -9,7 +9,7 @@
 //!
 //! usage: c06 run <seed> <quick|thorough>
 //!        c06 replay <json input>
-//!        c06 worker gen <seed> <from> <n> | c06 worker corpus <from> <n> | c06 worker one <json>
+//!        c06 worker gen <seed> <from> <n> | c06 worker corpus <from> <n> | c06 worker boundary <from> <n> | c06 worker one <json>
 
 #[path = "../c06/generate.rs"]
 mod generate;
@@ -414,6 +414,18 @@ fn worker(args: &[String]) {
                 mark(false);
             }
         }
+        "boundary" => {
+            let from: usize = args[1].parse().unwrap();
+            let n: usize = args[2].parse().unwrap();
+            let cases = g::boundary::all();
+            for idx in from..(from + n).min(cases.len()) {
+                println!("START {idx}");
+                let _ = std::io::stdout().flush();
+                mark(true);
+                run_case(&rt, &cases[idx], drv.as_mut(), &mut rep, idx as u64);
+                mark(false);
+            }
+        }
         "one" => {
             let v: Value = serde_json::from_str(&args[1]).expect("json");
             let case = Case::from_json(&v).expect("case");
@@ -569,7 +581,7 @@ fn run_parallel(
                         let args: Vec<String> = if mode == "gen" {
                             vec!["gen".into(), seed.to_string(), from.to_string(), n.to_string()]
                         } else {
-                            vec!["corpus".into(), from.to_string(), n.to_string()]
+                            vec![mode.to_string(), from.to_string(), n.to_string()]
                         };
                         // a batch may legitimately contain several slow cases
                         let w = spawn_worker(&args, Duration::from_secs(60 + 6 * n));
@@ -617,7 +629,7 @@ fn run_parallel(
                                 let a: Vec<String> = if mode == "gen" {
                                     vec!["gen".into(), seed.to_string(), from.to_string(), (last - from).to_string()]
                                 } else {
-                                    vec!["corpus".into(), from.to_string(), (last - from).to_string()]
+                                    vec![mode.to_string(), from.to_string(), (last - from).to_string()]
                                 };
                                 let w2 = spawn_worker(&a, Duration::from_secs(60 + 6 * n));
                                 if let Some(v) = Report::parse_stdout(&w2.stdout) {
@@ -730,6 +742,14 @@ fn main() {
                 c2.get(i as usize).map(|c| c.to_json()).unwrap_or(Value::Null)
             });
             rep.notes.push(format!("corpus: {} minimised past crashers replayed first", corpus.len()));
+            // then the boundary stream: class representatives (cyclic-type
+            // attempts through every type constructor, long non-ASCII tokens at
+            // every alignment wherever an error cites them); seed-independent
+            let boundary = g::boundary::all();
+            run_parallel("boundary", seed, boundary.len() as u64, 100, jobs, &mut rep, &|i| {
+                boundary.get(i as usize).map(|c| c.to_json()).unwrap_or(Value::Null)
+            });
+            rep.notes.push(format!("boundary stream: {} class representatives run before the random stream", boundary.len()));
             let seeds = g::Seeds::load();
             rep.notes.push(format!("seed programs harvested from the repository: {}", seeds.programs.len()));
             let batch = if thorough { 500 } else { 100 };
